@@ -24,10 +24,17 @@ def gen_shape(g, i):
     if kind in ("fixed", "stream"):
         n = g.randint(1, 4)
         shape["pieces"] = [tok + bytes(g.choice(b"abc\r\n0") for _ in range(g.randint(0, 12))) for _ in range(n)]
-        shape["gaps"] = [g.choice([0, 0, 1, 2]) for _ in range(n)]
+        for _ in range(g.choice([0, 0, 1, 2])):            # empty items among / after the data (legal WSGI)
+            shape["pieces"].insert(g.randint(0, len(shape["pieces"])), b"")
+        shape["gaps"] = [g.choice([0, 0, 1, 2]) for _ in shape["pieces"]]
+    elif kind in ("empty", "nolen-empty"):
+        shape["pieces"] = [b""] * g.choice([0, 0, 1, 2])
+        shape["gaps"] = [g.choice([0, 1]) for _ in shape["pieces"]]
     elif kind == "error":
         shape["status"] = g.choice(["400 Bad Request", "404 Not Found", "500 Internal Server Error"])
         shape["title"] = tok.decode()
+    if kind != "error" and g.random() < 0.2:
+        shape["aslist"] = True
     return shape
 
 
@@ -37,15 +44,15 @@ class C31(Check):
     engine = "netsim.http"
     design_ref = "§6 C31"
     rule = ("one persistent connection, N<=8 requests (queued up front or progressively) each answered by a drawn WSGI "
-            "response shape (fixed length in pieces, streamed without length with empty yields, empty with and without "
-            "length, raised HTTPError), pipe capacity and buffer sizes drawn per run, a seeded schedule of client "
+            "response shape (fixed length in pieces, streamed without length, empty yields before / among / after the data, "
+            "empty with and without length with and without empty items, generator or list-returning app, raised HTTPError), pipe capacity and buffer sizes drawn per run, a seeded schedule of client "
             "service / server service / partial delivery steps followed by a fair tail; non-trivial = N>=2 and at least "
             "one length-less response; distinct = digest of the per-step (responses received, server responders busy)")
     components = {"real": ["ioflo.aio.http.clienting.Patron/Requester/Respondent", "ioflo.aio.http.serving.Valet/Requestant/Responder",
                            "ioflo.aio.tcp Client/Server/Incomer (+Tls classes over the stub)"],
                   "stub": ["socket module", "TLS record layer", "WSGI application (plan driven)"]}
     assumptions = ["responses are read from Patron.responses after the run (a client may queue requests and collect later)"]
-    required_probes = ["n>=3", "stream-after-stream", "error-shape", "tls", "progressive", "partial-delivery", "completed"]
+    required_probes = ["n>=3", "stream-after-stream", "error-shape", "tls", "progressive", "partial-delivery", "completed", "empty-item-with-length-0", "list-app"]
     quick_runs = 6000
     thorough_runs = 300000
     shrink_fields = ["schedule", "shapes"]
@@ -58,7 +65,8 @@ class C31(Check):
             return d
         return [
             {"tls": False, "cap": 4096, "bs": 4096, "upfront": True, "schedule": [],
-             "shapes": [sh("stream", 0), sh("stream", 1), sh("fixed", 2), sh("nolen-empty", 3), sh("error", 4, status="404 Not Found", title="<4>"), sh("empty", 5), sh("stream", 6)]},
+             "shapes": [sh("stream", 0), sh("stream", 1), sh("fixed", 2), sh("nolen-empty", 3), sh("error", 4, status="404 Not Found", title="<4>"), sh("empty", 5), sh("stream", 6),
+                        sh("empty", 7, pieces=[b""], gaps=[1]), sh("fixed", 8, aslist=True), sh("empty", 9, pieces=[b""], gaps=[0], aslist=True), sh("fixed", 10)]},
             {"tls": True, "cap": 7, "bs": 3, "upfront": False, "schedule": [["c"], ["d", 0, 3], ["s"], ["d", 1, 2], ["c"], ["q"], ["s"], ["d", 1, 5]] * 4,
              "shapes": [sh("fixed", 0), sh("stream", 1), sh("stream", 2)]},
         ]
@@ -97,6 +105,10 @@ class C31(Check):
             out.probe("error-shape")
         if plan["tls"]:
             out.probe("tls")
+        if any(s["kind"] == "empty" and s["pieces"] for s in shapes):
+            out.probe("empty-item-with-length-0")
+        if any(s.get("aslist") for s in shapes):
+            out.probe("list-app")
         if not plan["upfront"]:
             out.probe("progressive")
         app = PlanApp(shapes)
